@@ -208,7 +208,7 @@ class IO:
         _, exc, seam = self._armed(sim, op, d, lambda dd: self._write(sim, fmt, dd, subset, op.get("overwrite", False)), "w")
         if seam == "twin_failed":
             return None
-        out = {"resolved": {"fmt": fmt, "subset": None if subset is None else sorted(subset)}, "tags": [fmt] + (["subset"] if subset else []), "io": None if (seam is None or not seam.fired) else list(seam.fired)}
+        out = {"resolved": {"fmt": fmt, "subset": None if subset is None else sorted(subset)}, "tags": [fmt] + (["subset"] if subset else []), "io": None if (seam is None or not seam.fired) else list(seam.fired[:2])}
         injected = isinstance(exc, InjectedOSError) or (exc is not None and seam.fired is not None and isinstance(exc, OSError))
         if exc is None:
             out["cls"] = "accepted"
